@@ -8,7 +8,7 @@
 //! The module also exposes a small public facade over crate-private code (`boxcar::Vec`,
 //! `par_sort::par_quicksort`) so that a harness can drive it directly.
 
-use std::sync::atomic::AtomicBool;
+use std::sync::atomic::{AtomicBool, AtomicU64, Ordering};
 use std::sync::{Arc, RwLock};
 
 use crate::{boxcar, Item, Nucleo, Utf32String};
@@ -119,4 +119,41 @@ where
     F: Fn(&T, &T) -> bool + Sync,
 {
     crate::par_sort::par_quicksort(v, is_less, canceled)
+}
+
+/// Names of the instrumented routines of `par_sort` (index = argument of `routine_entered`).
+pub const SORT_ROUTINES: [&str; 8] = [
+    "partial_insertion_sort",
+    "insertion_sort",
+    "heapsort",
+    "partition_in_blocks",
+    "partition_equal",
+    "break_patterns",
+    "parallel_join",
+    "cancel_observed",
+];
+
+static ROUTINE_COUNTERS: [AtomicU64; 8] = [
+    AtomicU64::new(0),
+    AtomicU64::new(0),
+    AtomicU64::new(0),
+    AtomicU64::new(0),
+    AtomicU64::new(0),
+    AtomicU64::new(0),
+    AtomicU64::new(0),
+    AtomicU64::new(0),
+];
+
+#[inline]
+pub(crate) fn routine_entered(i: usize) {
+    ROUTINE_COUNTERS[i].fetch_add(1, Ordering::Relaxed);
+}
+
+/// How often each routine of [`SORT_ROUTINES`] was entered in this process so far.
+pub fn sort_routine_counters() -> [u64; 8] {
+    let mut out = [0; 8];
+    for (o, c) in out.iter_mut().zip(ROUTINE_COUNTERS.iter()) {
+        *o = c.load(Ordering::Relaxed);
+    }
+    out
 }
